@@ -872,7 +872,7 @@ impl Harness for H {
         for variant in [Variant::Local, Variant::LocalSelect] {
             v.push((Cfg { recreate: true, ..cfg(variant, &[1, 1]) }, plan(if q { 4 } else { 5 }, if q { 2 } else { 12 })));
         }
-        v.push((Cfg { recreate: true, ..cfg(Variant::Ipc, &[1, 1]) }, plan(if q { 3 } else { 4 }, 7)));
+        v.push((Cfg { recreate: true, ..cfg(Variant::Ipc, if q { &[1] } else { &[1, 1] }) }, plan(if q { 3 } else { 4 }, 7)));
         // --- three / four listeners
         v.push((cfg(Variant::Local, &[2, 1]), plan(if q { 5 } else { 6 }, if q { 6 } else { 12 })));
         if !q {
